@@ -23,7 +23,13 @@ Init == \/ /\ reqs \in Structures /\ notImpl = {} /\ cred \in Creds /\ st = Init
         \/ /\ reqs \in Wide /\ notImpl = {} /\ cred \in WideCreds(reqs) /\ st = InitRT
         \* generation-only structures with a not-implemented scheme (index bounds, S4)
         \/ /\ reqs \in Structures /\ notImpl \in {{x} : x \in Schemes} /\ cred = [s \in Schemes |-> "absent"] /\ st = [InitRT EXCEPT !.pc = "gen"]
-Next == st.pc \in {"check", "eval"} /\ st' = StepRT(st, reqs, notImpl, cred) /\ UNCHANGED <<reqs, notImpl, cred>>
+\* the run-time machine as the statement demands it (no deviation switched on)
+Next == st.pc \in {"check", "eval"} /\ st' = StepRT(st, reqs, notImpl, cred, {}) /\ UNCHANGED <<reqs, notImpl, cred>>
+\* the fail-closed deviation is exactly: 401 where an alternative is satisfied and a mentioned credential is rejected
+RejectDeviation == st.pc = "check" /\ st.i = 1 /\ notImpl = {} =>
+  LET dev == ImplOutcome(reqs, notImpl, cred, {"Dev_RejectedCredentialDenies"}).pc
+      fix == ImplOutcome(reqs, notImpl, cred, {}).pc IN
+  (dev # fix) => (dev = "401" /\ Satisfiable(reqs, cred) /\ Rejected(cred) \cap Mentioned(reqs) # {})
 
 \* S1-S3, S5: the run-time machine refines the abstract layer
 Refines == st.pc \in {"handler", "401"} => st.pc \in Allowed(reqs, cred)
